@@ -377,7 +377,19 @@ fn run_case<T: Sc>(ctx: &Ctx, c: &Case, prop: &str, tt: &TTable, seed: u64) {
         if cov.iter().all(|v| v.is_finite()) && (0..dim).any(|a| cov[(a, a)] < 0.0) {
             ctx.with(|s| {
                 s.inc("ok_with_negative_variance");
-                s.bucket("negative_variance", &format!("{} {} w={:?} n={} amp={:e} nv={} kappa={:.1e} diag={:?}", c.fam.name(), if c.f32_ { "f32" } else { "f64" }, c.w, c.n, c.amp, c.noise_variant, kappa, (0..dim).map(|a| cov[(a, a)]).collect::<Vec<_>>()));
+                if kappa_scaled * eps < 0.1 {
+                    s.inc("negative_variance_although_well_posed_after_equilibration");
+                    // H^T H is ill conditioned ONLY through the scaling of its columns (units of the parameters): after
+                    // equilibration digits remain, so a variance cannot be negative "up to rounding" - a genuine defect of the
+                    // inversion in FitStatistics::try_calculate (known finding, DESIGN 12.2)
+                    s.violate(
+                        "C13",
+                        "negative-variance-badly-scaled",
+                        cj(),
+                        format!("variances {:?} of an Ok result; kappa(H^T H) = {:.1e} but only {:.1e} after scaling the columns of H to unit length (eps {:.1e})", (0..dim).map(|a| cov[(a, a)]).collect::<Vec<_>>(), kappa, kappa_scaled, eps),
+                    );
+                }
+                s.bucket("negative_variance", &format!("{} {} w={:?} n={} amp={:e} nv={} kappa={:.1e} kappa_scaled={:.1e} diag={:?}", c.fam.name(), if c.f32_ { "f32" } else { "f64" }, c.w, c.n, c.amp, c.noise_variant, kappa, kappa_scaled, (0..dim).map(|a| cov[(a, a)]).collect::<Vec<_>>()));
             });
         }
         // accessors: exactly the diagonal segments (bitwise)
